@@ -1341,11 +1341,28 @@ func c18ContextPrecision(c *Ctx) {
 					if !rounds {
 						continue
 					}
-					is128 := false
-					if u, isU := us.recv.(*ssa.UnOp); isU {
-						if gl, isG := u.X.(*ssa.Global); isG && gl.Name() == "Context128" {
-							is128 = true
+					isCtx128 := func(v ssa.Value) bool {
+						if u, isU := v.(*ssa.UnOp); isU {
+							if gl, isG := u.X.(*ssa.Global); isG && gl.Name() == "Context128" {
+								return true
+							}
 						}
+						return false
+					}
+					is128 := isCtx128(us.recv)
+					// the context handed in as a parameter: what every call site passes
+					if par, isPar := us.recv.(*ssa.Parameter); isPar && !is128 {
+						pi := paramIndex(par)
+						nsite, all := 0, true
+						for _, caller := range c.P.ModFuncs {
+							for _, cs := range callsTo(caller, g) {
+								nsite++
+								if pi >= len(cs.Call.Args) || !isCtx128(cs.Call.Args[pi]) {
+									all = false
+								}
+							}
+						}
+						is128 = nsite > 0 && all
 					}
 					if !is128 {
 						bad = fmt.Sprintf("%s at %s is used on %s: %s", us.fn.Name(), c.P.InstrPos(in), describeValue(us.recv), why)
